@@ -18,7 +18,10 @@ func (fr *Frame) buildNames() {
 			switch x := ins.(type) {
 			case *ssa.DebugRef:
 				if id, ok := x.Expr.(*ast.Ident); ok {
-					fr.names[id.Name] = append(fr.names[id.Name], nameCand{x.X, x.IsAddr, b})
+					// only local variables and parameters (not the field name of a selector expression)
+					if v, isVar := x.Object().(*types.Var); isVar && !v.IsField() {
+						fr.names[id.Name] = append(fr.names[id.Name], nameCand{x.X, x.IsAddr, b})
+					}
 				}
 			case *ssa.Alloc:
 				if x.Comment != "" && x.Comment != "complit" && x.Comment != "varargs" && !strings.Contains(x.Comment, ".") {
@@ -202,6 +205,15 @@ func (e *Exec) frameObligations(fr *Frame, exit *State, exitGuard string, envEnt
 		entryV := e.get(e.entry, name, srt)
 		if exit.H[name] == entryV {
 			continue
+		}
+		if strings.HasPrefix(name, "$g$") {
+			gn := strings.TrimPrefix(name, "$g$")
+			if i := strings.Index(gn, "$"); i > 0 {
+				gn = gn[:i]
+			}
+			if g, ok := e.P.Spec.Ghosts[gn]; ok && g.Scratch {
+				continue
+			}
 		}
 		a := allow[name]
 		if a != nil && a.whole {
